@@ -22,9 +22,10 @@ import SqlfluffVerif.Driver.Funnel
 import SqlfluffVerif.Driver.Sql
 import SqlfluffVerif.Driver.Shared
 import SqlfluffVerif.Driver.IterSeg
+import SqlfluffVerif.Driver.Skel
 open SqlfluffVerif SqlfluffVerif.Proto SqlfluffVerif.Driver
 
-def handlers : List (List String → Option String) := [handlePos, handlePatch, handleDedupe, handleNoqa, handleSelect, handleMR, handleTreeSpec, handleLexer, handleLexSpec, handleSlices, handleExit, handleDiscovery, handleWritePath, handleConfig, handleSerialise, handleEdits, handleFixLoop, handleParseOpt, handleGuard, handleFunnel, handleSql, handleShared, handleIterSeg]
+def handlers : List (List String → Option String) := [handlePos, handlePatch, handleDedupe, handleNoqa, handleSelect, handleMR, handleTreeSpec, handleLexer, handleLexSpec, handleSlices, handleExit, handleDiscovery, handleWritePath, handleConfig, handleSerialise, handleEdits, handleFixLoop, handleParseOpt, handleGuard, handleFunnel, handleSql, handleShared, handleIterSeg, handleSkel]
 
 def handle (toks : List String) : String :=
   match toks with
